@@ -68,7 +68,12 @@ impl std::future::Future for Quiesce {
 }
 
 // ------------------------------------------------------------------------------------------------
-// in-memory transport. Written bytes become visible to the reader only on flush (like the noise stream).
+// in-memory transport. Written bytes become visible to the reader only on flush (like the noise stream), or when the
+// writer is blocked by back-pressure (the noise stream sends a full frame without being asked, too).
+// Back-pressure acts between two mux frames (the transport follows the frame structure of what is written to it with a
+// parser of its own): the writer may start a frame only while `wtotal < limit` (raw sessions: the peer played by the
+// harness announces how many bytes it is going to take) and while fewer than `cap` accepted bytes are unread (pair
+// sessions: a bounded pipe whose reader is the other mux).
 #[derive(Default)]
 struct Chan {
     buf: VecDeque<u8>,
@@ -78,8 +83,89 @@ struct Chan {
     total_read: usize,
     /// every byte that ever became visible
     log: Vec<u8>,
+    /// bytes accepted from the writer
+    wtotal: usize,
+    limit: Option<usize>,
+    cap: Option<usize>,
+    /// the writer, parked because the transport does not take a new frame
+    wwaker: Option<Waker>,
+    fp: FrameParser,
+    /// how many times a writer was turned away
+    turned_away: usize,
 }
 type ChanRef = Arc<Mutex<Chan>>;
+
+/// Where in the byte stream written by a mux we are: handshake (u32 length + body), then frames.
+#[derive(Default)]
+struct FrameParser {
+    /// 0 handshake length, 1 handshake body, 2 frame header, 3 DATA length, 4 DATA payload
+    phase: u8,
+    /// bytes of the current 2/4-byte field collected so far
+    c: usize,
+    acc: [u8; 4],
+    /// bytes of the current body / payload still to come
+    rem: usize,
+}
+impl FrameParser {
+    fn at_frame_start(&self) -> bool {
+        self.phase == 2 && self.c == 0
+    }
+    fn feed(&mut self, b: u8) {
+        match self.phase {
+            0 => {
+                self.acc[self.c] = b;
+                self.c += 1;
+                if self.c == 4 {
+                    self.rem = u32::from_le_bytes(self.acc) as usize;
+                    self.c = 0;
+                    self.phase = if self.rem == 0 { 2 } else { 1 };
+                }
+            }
+            1 | 4 => {
+                self.rem -= 1;
+                if self.rem == 0 {
+                    self.phase = 2;
+                }
+            }
+            2 => {
+                self.acc[self.c] = b;
+                self.c += 1;
+                if self.c == 2 {
+                    let hdr = u16::from_le_bytes([self.acc[0], self.acc[1]]);
+                    self.c = 0;
+                    self.phase = if hdr & FK_MASK == FK_DATA { 3 } else { 2 };
+                }
+            }
+            _ => {
+                self.acc[self.c] = b;
+                self.c += 1;
+                if self.c == 2 {
+                    self.rem = u16::from_le_bytes([self.acc[0], self.acc[1]]) as usize;
+                    self.c = 0;
+                    self.phase = if self.rem == 0 { 2 } else { 4 };
+                }
+            }
+        }
+    }
+}
+impl Chan {
+    fn closed_for_frame(&self) -> bool {
+        self.limit.is_some_and(|l| self.wtotal >= l) || self.cap.is_some_and(|c| self.wtotal - self.total_read >= c)
+    }
+    fn make_visible(&mut self) {
+        let p = std::mem::take(&mut self.pending);
+        self.buf.extend(p.iter().copied());
+        self.log.extend_from_slice(&p);
+        if let Some(w) = self.waker.take() {
+            w.wake();
+        }
+    }
+}
+fn chan_wake_writer(c: &ChanRef) {
+    if let Some(w) = c.lock().unwrap().wwaker.take() {
+        w.wake();
+    }
+}
 
 fn chan_push(c: &ChanRef, bytes: &[u8]) {
     let mut g = c.lock().unwrap();
@@ -117,22 +203,35 @@ impl io::AsyncRead for Endpoint {
             buf.put_slice(&[b]);
         }
         g.total_read += n;
+        if let Some(w) = g.wwaker.take() {
+            w.wake();
+        }
         Poll::Ready(Ok(()))
     }
 }
 impl io::AsyncWrite for Endpoint {
-    fn poll_write(self: Pin<&mut Self>, _cx: &mut Context<'_>, buf: &[u8]) -> Poll<io::Result<usize>> {
-        self.tx.lock().unwrap().pending.extend_from_slice(buf);
-        Poll::Ready(Ok(buf.len()))
+    fn poll_write(self: Pin<&mut Self>, cx: &mut Context<'_>, buf: &[u8]) -> Poll<io::Result<usize>> {
+        let mut g = self.tx.lock().unwrap();
+        let mut n = 0;
+        for &b in buf {
+            if g.fp.at_frame_start() && g.closed_for_frame() {
+                break;
+            }
+            g.fp.feed(b);
+            g.pending.push(b);
+            g.wtotal += 1;
+            n += 1;
+        }
+        if n == 0 && !buf.is_empty() {
+            g.make_visible();
+            g.wwaker = Some(cx.waker().clone());
+            g.turned_away += 1;
+            return Poll::Pending;
+        }
+        Poll::Ready(Ok(n))
     }
     fn poll_flush(self: Pin<&mut Self>, _cx: &mut Context<'_>) -> Poll<io::Result<()>> {
-        let mut g = self.tx.lock().unwrap();
-        let p = std::mem::take(&mut g.pending);
-        g.buf.extend(p.iter().copied());
-        g.log.extend_from_slice(&p);
-        if let Some(w) = g.waker.take() {
-            w.wake();
-        }
+        self.tx.lock().unwrap().make_visible();
         Poll::Ready(Ok(()))
     }
     fn poll_shutdown(self: Pin<&mut Self>, _cx: &mut Context<'_>) -> Poll<io::Result<()>> {
